@@ -82,7 +82,7 @@ def run(chk):
         c01.traces(chk, vh, shards=48, streams=24, target=1500)
     # strip stream: mixed write-family calls (incl. argument-less write!) cutting sequences, judged per call
     from props import c06
-    c06.random_runs(chk, vh, shards=4 if quick else 24, runs=24, target=300 if quick else 1200)
+    c06.random_runs(chk, vh, shards=4 if quick else 24, runs=24, target=300 if quick else 1200, max_profile=0)
     from props import c07
     c07.chunk_part(chk, vh, quick)
     chk.exhaustive = False
